@@ -332,6 +332,65 @@ impl World {
             }
             rs.push(Val::L(vec![Val::n(*a), Val::L(per)]));
         }
+        // read-only views
+        let mut lim = Vec::new();
+        for m in [1usize, 2] {
+            let mut l = Vec::new();
+            for f in &self.families {
+                for c in self.table.collect_loc_rib_paths_limited(f, m) {
+                    let paths: Vec<Val> = c.current_paths.iter().map(|p| self.path_val(p)).collect();
+                    l.push(Val::L(vec![Val::n(net_of(&c.net)), Val::L(paths)]));
+                }
+            }
+            lim.push(Val::L(l));
+        }
+        let mut adj = Vec::new();
+        for a in addrs {
+            let ip = addr_of(*a);
+            let mut per = Vec::new();
+            for f in &self.families {
+                let mut views: Vec<HashMap<u64, Vec<Val>>> = Vec::new();
+                for flt in [false, true] {
+                    let mut m: HashMap<u64, Vec<Val>> = HashMap::new();
+                    for d in self.table.destinations(TableQuery::AdjIn(ip), *f, vec![], flt) {
+                        let ps = d
+                            .paths
+                            .iter()
+                            .map(|p| {
+                                Val::L(vec![
+                                    Val::n(p.remote_path_id),
+                                    self.src_tok(&p.source),
+                                    self.attr_tok(&p.attr),
+                                    Val::b(p.filtered),
+                                ])
+                            })
+                            .collect();
+                        m.insert(net_of(&d.net), ps);
+                    }
+                    views.push(m);
+                }
+                for stale in [false, true] {
+                    let mut m: HashMap<u64, Vec<Val>> = HashMap::new();
+                    for (_fam, net, rpid, nh, src, _attr, _ts) in self.table.collect_adj_in_paths(ip, Some(*f), stale) {
+                        m.entry(net_of(&net)).or_default().push(Val::L(vec![
+                            Val::n(rpid),
+                            self.src_tok(&src),
+                            Val::opt(nh.map(|n| nh_val(&n))),
+                        ]));
+                    }
+                    views.push(m);
+                }
+                for d in self.table.destinations(TableQuery::Global, *f, vec![], true) {
+                    let n = net_of(&d.net);
+                    let mut rec = vec![Val::n(n)];
+                    for v in &views {
+                        rec.push(Val::L(v.get(&n).cloned().unwrap_or_default()));
+                    }
+                    per.push(Val::L(rec));
+                }
+            }
+            adj.push(Val::L(vec![Val::n(*a), Val::L(per)]));
+        }
         Val::L(vec![
             Val::L(loc),
             Val::L(dests),
@@ -340,6 +399,7 @@ impl World {
             Val::L(cv),
             Val::b(false),
             Val::L(rs),
+            Val::L(vec![lim[0].clone(), lim[1].clone(), Val::L(adj)]),
         ])
     }
 }
